@@ -31,7 +31,7 @@ func c07Shapes(tier string) [][]int {
 }
 
 var c07ArithModes = []string{"safe", "unsafe", "reuse", "incr", "reuseA", "reuseB"}
-var c07CmpModes = []string{"bool", "same", "unsafe", "reuse-bool", "reuse-same", "reuseA-same"}
+var c07CmpModes = []string{"bool", "same", "unsafe", "reuse-bool", "reuse-same", "reuseA-same", "reuseB-same", "reuse-unfit"}
 var c07UnaryModes = []string{"safe", "unsafe", "reuse", "incr", "reuseA"}
 
 func c07Groups(tier string) []core.Group {
@@ -82,8 +82,11 @@ func c07Run(c *core.Ctx, family, op, mode string) {
 	if mode == "reuse" || mode == "incr" || mode == "reuse-bool" || mode == "reuse-same" {
 		dests = []string{gen.LC, gen.LS}
 	}
+	if mode == "reuse-unfit" {
+		dests = []string{gen.LC}
+	}
 	for _, form := range forms {
-		if mode == "reuseB" && form != "TT" {
+		if (mode == "reuseB" || mode == "reuseB-same") && form != "TT" {
 			continue
 		}
 		var pairs [][2]string
